@@ -117,9 +117,35 @@ def build(targets, jobs=8):
                 res["failed_lemma"] = m.group(1)
             elif m is None and res.get("failed_file"):
                 res["failed_lemma"] = lemma_at(res["failed_file"], res.get("failed_line", 0))
+        if res["ok"] and tier() == "thorough":
+            # the independent checker re-checks the compiled property modules and everything they depend on
+            mods = ["TV." + t[:-3].replace("/", ".") for t in targets if t.startswith("Properties/")]
+            if mods:
+                ck = coqchk(mods)
+                LAST_COQCHK.update(ck)
+                if not ck["ok"]:
+                    res["ok"] = False
+                    res["failed_file"] = "coqchk " + " ".join(mods)
+                    res["log"] += "\n" + ck["raw"][-3000:]
         return res
     finally:
         lock.close()
+
+
+LAST_COQCHK = {}
+
+
+def coqchk(modules):
+    """coqchk -o: ok iff it accepts the modules and reports no axiom, no type-in-type, no unsafe fixpoint, no assumed
+    positivity."""
+    r = subprocess.run(["timeout", "3000", "coqchk", "-silent", "-o", "-Q", ".", "TV"] + list(modules),
+                       cwd=COQ, capture_output=True, text=True)
+    out = r.stdout + r.stderr
+    sections = dict(re.findall(r"\* ([^:\n]+):\s*(.*?)\n\s*\n", out + "\n\n", re.S))
+    clean = r.returncode == 0 and all("<none>" in sections.get(k, "") for k in (
+        "Axioms", "Constants/Inductives relying on type-in-type", "Constants/Inductives relying on unsafe (co)fixpoints",
+        "Inductives whose positivity is assumed"))
+    return {"ok": clean, "modules": list(modules), "axioms": sections.get("Axioms", "?").strip(), "raw": out}
 
 
 def lemma_at(relfile, line):
@@ -220,7 +246,8 @@ def write_evidence(pid, tier_, level, coverage, wall_s, violations=0, assumption
         "tier": tier_,
         "seed": seed(),
         "level": level,
-        "coverage": coverage,
+        "coverage": dict(coverage, **({"coqchk": {k: LAST_COQCHK[k] for k in ("ok", "modules", "axioms")}}
+                                      if LAST_COQCHK else {})),
         "assumptions": assumptions_ or [],
         "wall_s": round(wall_s, 2),
         "violations": violations,
